@@ -15,10 +15,10 @@ type HelperEntity struct {
 	Name   string
 	NIn    int
 	NParam int
-	MinP   []int                                          // minimum admissible value per parameter
-	Build  func(p []int, in []<-chan F) []<-chan F        // the stream pipeline
-	Model  func(p []int, in [][]F) [][]F                  // the slice model
-	Ok     func(p []int, lens []int) bool                 // optional domain restriction
+	MinP   []int                                   // minimum admissible value per parameter
+	Build  func(p []int, in []<-chan F) []<-chan F // the stream pipeline
+	Model  func(p []int, in [][]F) [][]F           // the slice model
+	Ok     func(p []int, lens []int) bool          // optional domain restriction
 }
 
 func one(c <-chan F) []<-chan F { return []<-chan F{c} }
@@ -290,7 +290,7 @@ var Helpers = []*HelperEntity{
 			return [][]F{r}
 		}},
 	{Name: "helper.Echo", NIn: 1, NParam: 2, MinP: []int{1, 0},
-		Ok: func(p []int, lens []int) bool { return lens[0] >= p[0] },
+		Ok:    func(p []int, lens []int) bool { return lens[0] >= p[0] },
 		Build: func(p []int, in []<-chan F) []<-chan F { return one(helper.Echo(in[0], p[0], p[1])) },
 		Model: func(p []int, in [][]F) [][]F {
 			r := append([]F{}, in[0]...)
